@@ -37,4 +37,4 @@ func main() {
 	c.finish()
 }
 
-func workerMain() {}
+
